@@ -175,11 +175,43 @@ class C07(Prop):
     coq_targets = ["props/C07.vo"]
     props_file = "props/C07.v"
     design_ref = "DESIGN.md §4 C07"
-    level_text = "TBD"
-    level_note = "TBD"
-    rule = "TBD"
-    trusted = []
-    assumptions = []
+    level_text = ("Coq theorems for the code with the six proposed repairs (variant `fixed` of coq/model/Deb822Wrap.v), over all well-formed "
+                  "documents (Grammar.wf_doc) and all settings (Spaces(n>=1)/FieldNameLength, either immediate_empty_line, any one-line limit, any "
+                  "comparators that depend only on names and values and give consistent answers): C07_holds = no panic; the result is exactly the tree of "
+                  "the layout WrapSpec describes (comment lines stay in front of the same field/paragraph, groups sorted stably, fields rebuilt by the "
+                  "rebuild_value case analysis); the returned object reports the sorted content; the printed result parses strictly and re-reads to that "
+                  "content; continuation lines indented by exactly the requested width; exactly one blank line between paragraphs; a second application "
+                  "changes nothing. Entry and paragraph level separately (C07_rebuild_value, C07_entry, C07_entry_idem, C07_paragraph, C07_paragraph_idem). "
+                  "With a formatter (C07_formatter, C07_formatter_idem, C07_identity_formatter, C07_formatter_tokens): for formatters whose output is "
+                  "`shaped` (no CR, no empty/indented/'#' continuation line) the same clauses with 'exactly the lines of the formatter's output'; "
+                  "idempotence under the explicit premise that a second field step is a no-op (discharged for the identity formatter). The shipped code "
+                  "is refuted (C07_shipped_refuted, C07_repairs_needed, C07_shipped_witnesses, C07_moved_paragraph, C07_formatter_lines, "
+                  "C07_build_conflicts_arch). PARTIAL: documents that are error-free but outside Grammar.wf_doc (CR line ends, blank or comment lines "
+                  "inside a value, whitespace before the colon), formatters with unshaped output, the Uploaders/relations formatter of the control "
+                  "wrappers and Source/Binary/Control::wrap_and_sort are covered by the correspondence streams and the oracle only.")
+    level_note = ("Model: Entry/Paragraph/Deb822::wrap_and_sort, rebuild_value, inject (src/lossless.rs), lex_inline (src/lex.rs), format_field and "
+                  "Control/Source/Binary::wrap_and_sort (debian-control/src/lossless/control.rs; the relations branch is a parameter fed with the "
+                  "implementation's own values). `./check C07` evaluates the model of the REPAIRED code: on the unchanged /repo it reports the defects "
+                  "(VIOLATION) until proposed_fixes/C07-*.patch are committed; VERIF_C07_MODEL=shipped evaluates the model of the shipped code "
+                  "(0 correspondence differences on the unchanged /repo).")
+    rule = ("hand-written edge cases (one per clause/defect) + /repo test literals + generated Grammar.doc inhabitants (every layout knob, values "
+            "with ',' ';' '#') + exotic error-free texts (CR, blank/comment lines in values, blanks before ':') + control-file documents "
+            "(relationship fields, Uploaders, misspelt/unknown names, unparsable relations) + mutated/malformed texts, each x sampled settings from "
+            "the grid {Spaces 1,2,4,8,FieldNameLength} x iel x {None,10,79,10^6} x {none, first value, control order} x {none, by name} x "
+            "{none, identity, ';'->LF, Uploaders} (+ Spaces(0), + no paragraph function) (thorough: the whole grid of 960 on a part), + every string "
+            "of length <= 5 (thorough 6) over {A : SP LF # ;}; non-trivial = strictly parsed input with at least one paragraph")
+    trusted = ["Coq 8.16.1 kernel",
+               "hand-written Coq transcription of Entry/Paragraph/Deb822::wrap_and_sort, rebuild_value (src/lossless.rs), format_field and the control "
+               "wrappers (debian-control/src/lossless/control.rs), tied to the code by the para-wrap / doc-wrap / control-wrap correspondence streams on every run",
+               "models of coq/model/Deb822Lex.v, Deb822Parse.v, Deb822Edit.ensure_nl (other cones; same streams)",
+               "rowan GreenNodeBuilder / SyntaxNode::children_with_tokens / clone_for_update / splice_children modelled as lists of children; inject = identity",
+               "Vec::sort_by modelled as a stable insertion sort (equal to any stable sort for comparators that are total preorders)",
+               "str::split_inclusive, str::trim, char::is_whitespace, str::split(','), join modelled (own definitions, validated by the streams)",
+               "Relations::from_str(..).wrap_and_sort().to_string() is a parameter of the model: the control-wrap stream feeds it the implementation's own values (harness helper control-fmt-table)",
+               "extraction (ExtrOcamlBasic only), OCaml runner, Rust harness, Python driver/generators/oracle"]
+    assumptions = ["inputs are valid UTF-8 (Rust &str)", "field names shorter than 4 GiB (the `as u32` cast of FieldNameLength is not modelled)",
+                   "comparators and formatters passed by the caller return (do not panic) and comparators give consistent answers (Vec::sort_by's contract)",
+                   "the theorems are about the repaired code (six patches in proposed_fixes/, pending commit)"]
     case_ms = 6000
 
     def streams(self, tier, rng):
@@ -194,7 +226,7 @@ class C07(Prop):
             return "implementation " + impl
         if impl == "PANIC":
             if cfg["ind"] == "s0": return None          # Spaces(0): outside the property (assert!)
-            if stream == "control-wrap" and self._rel_unparsable(text, fields): return None
+            if stream == "control-wrap" and self._rel_unparsable(text, fields, True): return None
             return "implementation PANIC"
         r = rec_fields(impl)
         if r.get("strict") != "OK": return None         # not an error-free document
@@ -216,7 +248,7 @@ class C07(Prop):
                 t[unhex(v).strip(" \t\n")] = None if o == "ERR" else unhex(o)
         return t
 
-    def _rel_unparsable(self, text, fields):
+    def _rel_unparsable(self, text, fields, panicked=False):
         """some relationship field of the document has a value the relations reader rejects (format_field unwraps)"""
         tab = fields[2] if len(fields) > 2 else "-"
         if tab in ("-", ""): return False
@@ -225,6 +257,7 @@ class C07(Prop):
             v, o = e.split(":")
             if o == "ERR": bad.add(unhex(v).strip(" \t\n"))
         if not bad: return False
+        if "\r" in text and panicked: return True     # CR line ends inside values: the oracle's line reading cannot be aligned with the table
         # the oracle's own reading: a field of one of the names with such a value
         cur = None; vals = {}
         for l in text.replace("\r", "\n").split("\n"):
@@ -358,6 +391,10 @@ class C07(Prop):
                 elif nbstrip(unhex(v1)) != nbstrip(fmt_py(cfg["fmt"], k0, v0)):
                     return "entry value is not the formatter's output"
         return None
+
+    def shrink_field(self, stream):
+        # a control-wrap case carries the formatter table computed for its text: shrinking the text would leave it stale
+        return None if stream == "control-wrap" else 0
 
     def nontrivial(self, stream, fields, impl):
         r = rec_fields(impl)
